@@ -81,7 +81,9 @@ class Insert:
         t = self.text
         for k, c in enumerate(self.clauses):
             t = t.replace('@%d@' % k, c.render())
-        return t
+        # woven ghost/proof text is bracketed so that a failure inside it is classified as a proof step of the
+        # function's contract, never as one of the built-in safety obligations of the executable code
+        return '/*@P<*/' + t + '/*@P>*/'
 
 
 def lit(s):
@@ -272,16 +274,22 @@ def weave_fn(src, fc):
     return '/*@F<%s*/\n%s%s%s%s\n/*@F>*/' % (fc.path, attrs, sig.rstrip() + ' ', spec, out)
 
 
-_MARK = re.compile(r'/\*@(F?)(<|>)([^*]*)\*/')
+_MARK = re.compile(r'/\*@([FP]?)(<|>)([^*]*)\*/')
 
 
 def marker_map(woven):
     """Return (clause_ranges, fn_ranges): lists of (start, end, id)."""
     clauses, fns = [], []
-    stack_c, stack_f = [], []
+    stack_c, stack_f, stack_p = [], [], []
+    proofs = []
     for m in _MARK.finditer(woven):
         isf, d, ident = m.group(1), m.group(2), m.group(3)
-        if isf:
+        if isf == 'P':
+            if d == '<':
+                stack_p.append(m.start())
+            else:
+                proofs.append((stack_p.pop(), m.end(), 'proof'))
+        elif isf:
             if d == '<':
                 stack_f.append((m.start(), ident))
             else:
@@ -293,4 +301,5 @@ def marker_map(woven):
             else:
                 s, ident0 = stack_c.pop()
                 clauses.append((s, m.end(), ident0))
+    marker_map.proofs = proofs
     return clauses, fns
